@@ -168,6 +168,13 @@ pub fn gen_shutdown_big(rng: &mut Rng) -> Plan {
     Plan { cap, kind: rng.below(3) as u8, regime: 1, scripts: vec![ops], joiner: 1, results: vec![], report_result: 0, failing_flushes: vec![] }
 }
 
+/// scheduled runs in which a thread never arrived where it had to (each costs a 5 s time-out): after a few of
+/// them the remaining scheduled cases are skipped — the failures found are reported, the check stays bounded
+pub static STUCK_RUNS: AtomicU64 = AtomicU64::new(0);
+pub fn too_many_stuck() -> bool {
+    STUCK_RUNS.load(Ordering::SeqCst) >= 4
+}
+
 pub struct SchedStats {
     pub overflowed: bool,
     pub flushes: usize,
@@ -241,6 +248,9 @@ pub fn emit_scheduled(out: &mut Out, plan: &Plan, rng: &mut Rng, replay: Option<
     }
     if r.end != "complete" && r.end != "writer parked, nobody left to wake it" {
         out.fail(format!("scheduled run did not complete: {}", r.end), &case);
+        if r.end.contains("did not") {
+            STUCK_RUNS.fetch_add(1, Ordering::SeqCst);
+        }
     }
     let nontrivial = st.appended >= 3 && st.interleaved && (st.overflowed || st.flushes > 0 || st.errors > 0 || st.producers >= 2);
     out.case(&case, &imp, nontrivial);
@@ -497,11 +507,18 @@ pub fn explore(out: &mut Out, plan: &Plan, bound: usize, budget: usize, rng: &mu
         out.add("explore_labels", r.steps.len() as u64);
         if r.end != "complete" && r.end != "writer parked, nobody left to wake it" {
             out.fail(format!("scheduled run did not complete: {}", r.end), &case);
+            if r.end.contains("did not") {
+                STUCK_RUNS.fetch_add(1, Ordering::SeqCst);
+            }
         }
         if let Some(d) = &r.diverged {
             out.fail(d.clone(), &case);
         }
         out.case(&case, &imp, r.appended >= 2);
+        if too_many_stuck() {
+            out.notes.push("systematic exploration stopped: threads repeatedly failed to reach their next synchronisation point".into());
+            break;
+        }
     }
     done
 }
@@ -569,11 +586,18 @@ pub fn run_family(ctx: &Ctx, focus: Focus, rule: &str) {
                 s.notes.push(format!("phase {phase}: time budget reached after {i} scheduled cases"));
                 break;
             }
+            if too_many_stuck() {
+                s.notes.push("scheduled cases stopped: threads repeatedly failed to reach their next synchronisation point".into());
+                break;
+            }
             let plan = gen_plan(&mut rng, focus, false);
             let bias = *rng.pick(&[1, 2, 4, 4, 12, 30]);
             emit_scheduled(&mut s, &plan, &mut rng, None, bias);
         }
         for _ in 0..n_big / 2 {
+            if too_many_stuck() {
+                break;
+            }
             let plan = if focus == Focus::Flush && rng.chance(1, 2) { gen_flush_big(&mut rng) } else { gen_plan(&mut rng, focus, true) };
             let bias = *rng.pick(&[0, 0, 1, 4]);
             emit_scheduled(&mut s, &plan, &mut rng, None, bias);
